@@ -139,7 +139,17 @@ def replay_requests():
         (base + 'const a = await order({k:1}); __cancelOrder__(1); 5', 1, [1]),
         (base + 'async function f() { return await order({k:1}); } const p = f(); const q = await order({k:2}); __cancelOrder__(2); (await p) + q', 2, [2]),
     ]
-    return [{'cmd': 'order_trace', 'src': s, 'expect_issued': n, 'expect_cancelled': c} for s, n, c in progs]
+    reqs = [{'cmd': 'order_trace', 'src': s, 'expect_issued': n, 'expect_cancelled': c} for s, n, c in progs]
+    # the same protocol when the host answers in several fulfill_orders calls / adds an empty call / answers with an error
+    two = base + 'const a = order({k:1}); const b = order({k:2}); const r = await Promise.all([a, b]); r[0] * 10 + r[1]'
+    reqs.append({'cmd': 'order_trace', 'src': two, 'expect_issued': 2, 'expect_cancelled': [], 'fulfill': 'split', 'expect_value': 12.0})
+    reqs.append({'cmd': 'order_trace', 'src': two, 'expect_issued': 2, 'expect_cancelled': [], 'fulfill': 'then_empty', 'expect_value': 12.0})
+    reqs.append({'cmd': 'order_trace', 'src': base + 'const x = await order({k:1}); x + 1', 'expect_issued': 1, 'expect_cancelled': [], 'fulfill': 'then_empty', 'expect_value': 2.0})
+    reqs.append({'cmd': 'order_trace', 'src': base + 'let r = "none"; try { await order({k:1}) } catch (e) { r = "caught" } r', 'expect_issued': 1, 'expect_cancelled': [],
+                 'error_for': [1], 'expect_value': 'caught'})
+    reqs.append({'cmd': 'order_trace', 'src': base + 'const t1 = await order({k:1}); const t2 = await order({k:2}); __cancelOrder__(t2); __cancelOrder__(t1); const t3 = await order({k:3}); t3',
+                 'expect_issued': 3, 'expect_cancelled': [1, 2], 'expect_value': 3.0})
+    return reqs
 
 
 def replay_programs(state):
@@ -210,14 +220,139 @@ def check_step_idle(rep, cross):
 def validate_against_real(rep):
     """scripted host over the real interpreter: the StepResult traces obey the protocol (validates the replay route)"""
     progs = replay_programs({})
-    outs = driver.replay(replay_requests())
-    for p, o in zip(progs, outs):
+    reqs = replay_requests()
+    outs = driver.replay(reqs)
+    for p, o, rq in zip(progs, outs, reqs):
         rep.validated += 1
+        if not o.get('protocol_violation') and 'expect_value' in rq:
+            v = o.get('value') or {}
+            got = v.get('v') if v.get('t') == 'string' else (float(v['repr']) if v.get('t') == 'number' else v)
+            if got != rq['expect_value']:
+                o['protocol_violation'] = 'final value %r, expected %r (host mode %s%s)' % (got, rq['expect_value'], rq.get('fulfill', 'batch'),
+                                                                                         ', error responses for %r' % rq['error_for'] if rq.get('error_for') else '')
         if o.get('protocol_violation'):
             pth = rep.write_replay('order-trace', {'cmd': 'order_trace', 'src': p, 'observed': o})
             stranded = o['protocol_violation'].startswith('cancellations reported to the host') and o['trace'] and o['trace'][-1] == 'Complete'
             rep.violation(KF_STRANDED if stranded else 'C08/order_trace/scripted-host',
                           'scripted host run violates the protocol: %s (program: %s)' % (o['protocol_violation'], p.split('\n')[-1]), pth)
+
+
+def check_fulfill_orders(rep, cross):
+    """Interpreter::fulfill_orders adds every response it is given to order_responses and removes nothing: answers delivered in several
+    calls, or followed by an empty call, all stay available for the resume step"""
+    ex = ledger.setup_executor(6)
+    F = ledger.InterpFields(ex)
+    fn = common.fn_name(ex, 'Interpreter', 'fulfill_orders')
+    for n in (0, 1, 2):
+        st = State()
+        a, sym = ledger.fresh_interp(ex, st, F)
+        OR = {nm: i for i, nm in enumerate(ex.src.structs['OrderResponse'])}
+        ids = [z3.BitVec('resp%d_id' % i, 64) for i in range(n)]
+        rs = [Agg('struct', 'OrderResponse', {OR['id']: Agg('struct', 'OrderId', {0: Int(ids[i], False)}), OR['result']: Opaque('Result<RuntimeValue, JsError>', z3.Int('$res%d' % i))})
+              for i in range(n)]
+        m0 = ex.load(st, a, (('f', F['order_responses'], F.types['order_responses']),))
+        tok0 = m0.tok
+        ex.call_function(st, fn, [Ref(a), VecV(rs, 'OrderResponse')])
+        ends = ex.run(st)
+        if not common.require_clean(rep, ends, 'fulfill_orders(%d responses)' % n):
+            continue
+        for k, e in enumerate(ends):
+            ins = [ev for ev in e.st.events if ev[0] == 'map_insert']
+            m1 = ex.load(e.st, a, (('f', F['order_responses'], F.types['order_responses']),))
+
+            def root(t):
+                while isinstance(t, tuple):
+                    t = t[0]
+                return t
+            same_map = isinstance(m1, AbsVec) and root(m1.tok) == root(tok0)
+            others = [ev for ev in e.st.events if ev[0] in ('map_remove', 'map_clear')]
+            ok = same_map and len(ins) == n and not others
+            g = z3.BoolVal(ok)
+            if ok:
+                # the i-th insert carries the i-th response id (order of delivery) and its own result
+                conds = []
+                for i, ev in enumerate(ins):
+                    kk = ev[2][0] if isinstance(ev[2], tuple) else ev[2]
+                    kid = kk.fields[0].e if isinstance(kk, Agg) else None
+                    conds.append(kid == ids[i] if kid is not None else z3.BoolVal(False))
+                g = z3.And(conds) if conds else z3.BoolVal(True)
+            r, m = ex.check_sat_pc(e.st.pc, [z3.Not(g)])
+            what = 'fulfill_orders(%d responses) path %d: every response is added to the table the resume step reads, nothing already there is dropped' % (n, k)
+            rep.obligation(what, r, 'any response ids and results, any table contents', 0.0)
+            if r == 'unsat':
+                cross.append((what, list(e.st.pc) + [z3.Not(g)], 'unsat'))
+            elif not rep.seen('C08/fulfill_orders/responses-lost'):
+                outs = driver.replay(replay_requests())
+                rep.validated += len(outs)
+                bad = [(rq.get('fulfill', 'batch'), o.get('protocol_violation') or o.get('value')) for rq, o in zip(replay_requests(), outs) if o.get('protocol_violation')]
+                p = rep.write_replay('fulfill-orders', {'responses': n, 'same_table': same_map, 'inserts': len(ins), 'scripted_host_runs_with_violations': bad})
+                rep.violation('C08/fulfill_orders/responses-lost', 'fulfill_orders with %d responses: %d inserted, table %s%s' % (
+                    n, len(ins), 'kept' if same_map else 'REPLACED (answers of earlier calls are dropped)', '; scripted host: %r' % (bad[:1],) if bad else ''), p)
+    rep.vacuity.append('fulfill_orders: 0, 1, 2 responses')
+    rep.sample({'kernel': 'Interpreter::fulfill_orders', 'response_counts': [0, 1, 2]})
+    rep.absorb(ex)
+
+
+def check_cancel_syscall(rep, cross):
+    """__cancelOrder__(id): for every id that has been allocated (1 <= id < next_order_id) the id is appended to cancelled_orders exactly once"""
+    ex = ledger.setup_executor(6)
+    F = ledger.InterpFields(ex)
+    cands = [n for n in ex.mir.fn_index if n.endswith('cancel_order_syscall') and '{closure' not in n]
+    if len(cands) != 1:
+        rep.inconc('cannot locate cancel_order_syscall in the MIR dump (%d candidates)' % len(cands))
+        return
+    ex.auto_havoc = True
+    ex.auto_frames = {'Interpreter': {F[n] for n in ledger.LEDGER}}
+    st = State()
+    a, sym = ledger.fresh_interp(ex, st, F)
+    nxt = z3.BitVec('next_order_id', 64)
+    st.assume(z3.And(z3.UGE(nxt, 1), z3.ULT(nxt, 1 << 52)))
+    cell = st.store[a]
+    st.store[a] = cell.with_field(F['next_order_id'], Int(nxt, False))
+    xbits = z3.BitVec('cancel_arg_bits', 64)
+    x = z3.fpBVToFP(xbits, F64)
+    argv = st.alloc(VecV([EnumV('JsValue', 3, {3: {0: Float(x)}})], 'JsValue'))
+    c0 = ex.load(st, a, (('f', F['cancelled_orders'], F.types['cancelled_orders']),))
+    ex.call_function(st, cands[0], [Ref(a), EnumV('JsValue', 0, {}), Ref(argv)])
+    ends = ex.run(st, max_paths=2000)
+    n = 0
+    for k, e in enumerate(ends):
+        if e.status != 'return':
+            rep.inconc('cancel_order_syscall: %s %s' % (e.status, e.detail[:120]))
+            continue
+        n += 1
+        pushes = [ev for ev in e.st.events if ev[0] == 'abs_push' and str(ev[1] if not isinstance(ev[1], tuple) else ev[1][0]).startswith(str(c0.tok if not isinstance(c0.tok, tuple) else c0.tok[0]))]
+        # the id the script passed: the argument converted like the native does (f64 -> u64, saturating)
+        idv = None
+        for ev in e.st.events:
+            if ev[0] == 'f2i':
+                idv = ev[3]
+        allocated = z3.And(z3.fpGEQ(x, z3.FPVal(1.0, F64)), z3.fpLT(x, z3.fpUnsignedToFP(z3.RNE(), nxt, F64)), z3.fpEQ(x, z3.fpRoundToIntegral(z3.RTZ(), x)))
+        conds = [z3.BoolVal(len(pushes) == 1)]
+        if len(pushes) == 1:
+            pv = pushes[0][2]
+            pid = pv.fields[0].e if isinstance(pv, Agg) and 0 in pv.fields else None
+            conds.append(z3.fpEQ(z3.fpUnsignedToFP(z3.RNE(), pid, F64), x) if pid is not None else z3.BoolVal(False))
+        g = z3.Implies(allocated, z3.And(conds))
+        r, m = ex.check_sat_pc(e.st.pc, [z3.Not(g)])
+        what = 'cancel_order_syscall path %d: an allocated order id is appended to cancelled_orders exactly once' % k
+        rep.obligation(what, r, 'any number argument, any next_order_id < 2^52, any ledger', 0.0)
+        if r == 'unsat':
+            cross.append((what, list(e.st.pc) + [z3.Not(g)], 'unsat'))
+        elif not rep.seen('C08/cancel_order_syscall/cancellation-dropped'):
+            idc = m.eval(x, model_completion=True)
+            nv = m.eval(nxt, model_completion=True).as_long()
+            outs = driver.replay(replay_requests())
+            rep.validated += len(outs)
+            bad = [o.get('protocol_violation') for o in outs if o.get('protocol_violation')]
+            p = rep.write_replay('cancel-syscall', {'id': str(idc), 'next_order_id': nv, 'pushes': len(pushes), 'scripted_host_runs_with_violations': bad})
+            rep.violation('C08/cancel_order_syscall/cancellation-dropped', '__cancelOrder__(%s) with next_order_id = %d records %d cancellations (expected exactly one)%s' % (
+                idc, nv, len(pushes), '; scripted host: %r' % (bad[:1],) if bad else ''), p)
+    if n == 0:
+        rep.inconc('cancel_order_syscall: no path reaches a return (vacuity)')
+    rep.vacuity.append('cancel_order_syscall: %d return paths' % n)
+    rep.sample({'kernel': 'cancel_order_syscall', 'paths': n})
+    rep.absorb(ex)
 
 
 def run(rep):
@@ -235,6 +370,8 @@ def run(rep):
     validate_against_real(rep)
     check_process_vm_result(rep, cross)
     check_step_idle(rep, cross)
+    check_fulfill_orders(rep, cross)
+    check_cancel_syscall(rep, cross)
     from . import c08wg
     c08wg.check(rep, cross)
     rep.cross = driver.cross_check(cross, 300, 'ALL', rep.tier, rep.seed)
